@@ -17,7 +17,9 @@ RULE = (
     "(never evicts). non-trivial = >=4 publications, >=1 request strictly inside an interval and >=1 request "
     "made after an earlier request had advanced past a publication (eviction happened). Part backlog: bursts "
     "of 20-70 publications buffered before the target asks (fast source, slow target), requests on any "
-    "buffered publication or interval. distinct = JSON."
+    "buffered publication or interval. Part micro_steps_enum: complete - two publications 1-9 us apart, every "
+    "adapter / step position, a request on every microsecond (594 cases; trivial by the rule above, exhaustive by "
+    "construction). distinct = JSON."
 )
 ASSUMPTIONS = [
     "values are floats with |v| <= 1e6 scaled by 10^k (k in {-12,-9,0,9}), or NaN / +-inf (gaps); finite expectations of linear interpolation are compared with tolerance 1e-12 relative to max(|v|, 10^k), everything else exactly (NaN == NaN)",
@@ -240,8 +242,20 @@ def big_grid_case(draw):
     return {"adapter": draw(adapter_st), "grid": "big", "ops": ops}
 
 
+def enum_micro_steps(tier):
+    """complete: two publications 1-9 microseconds apart, every adapter (step positions incl. 1/3, 2/3, 0.3, 0.7),
+    a request on every microsecond of the interval - time arithmetic that rounds to whole microseconds has nowhere
+    to hide (added after the re-scan of filed seeds showed that sampling alone had become too thin for C11-r6)"""
+    adapters = [["next"], ["prev"], ["lin"]] + [["step", p] for p in (0.0, 0.25, 0.3, 1 / 3, 0.5, 2 / 3, 0.7, 1.0)]
+    for ad in adapters:
+        for g in range(1, 10):
+            for k in range(g + 1):
+                yield {"adapter": ad, "grid": False, "ops": [["push", 0, 1.0], ["push", g, 5.0], ["pull", 0, k, g]], "unit_us": 1}
+
+
 def parts():
     return [
+        Part("micro_steps_enum", check, enumerate=enum_micro_steps, exhaustive=True),
         Part("big_grids", hs.with_epoch(check), strategy=hs.plus_epoch(big_grid_case()), budget={"quick": 60, "thorough": 1500}, shrink_budget=60),
         Part("histories", hs.with_epoch(check), strategy=hs.plus_epoch(case_st()), strategy_thorough=hs.plus_epoch(case_st(max_ops=80)), budget={"quick": 2400, "thorough": 80000}, fuzz={"thorough": 10000}),
         Part("backlog", hs.with_epoch(check), strategy=hs.plus_epoch(backlog_case()), budget={"quick": 300, "thorough": 12000}, shrink_budget=150),
